@@ -62,6 +62,7 @@ inductive Prim
   | aopen | awrite (d : Bytes) | aclose
   | ropen | rtrunc (n : Nat) | rclose
   | unlink
+  | topen | tclose     -- `wpull.util.truncate_file`: `with open(path, 'wb'): pass`
   deriving DecidableEq, Repr
 
 /-- how a logged primitive ended (`enoent`: the file was not there -- not a scheduled fault) -/
@@ -286,5 +287,91 @@ def warcName (namePrefix seq : Str) (compress : Bool) : Str :=
 
 def journalName (namePrefix seq : Str) (compress : Bool) : Str :=
   warcName namePrefix seq compress ++ journalSuffix
+
+/-! ### a whole recorder life over a directory
+
+`WARCRecorder.__init__`, `flush_session` (roll-over at `max_size`) and `close()` (the
+`-meta` archive with the log record) call `_start_new_warc_file` and `write_record`
+on several archives of one prefix.  The directory is a map file name ↦ contents; each
+append works on the archive it is aimed at and on the journal NEXT TO IT. -/
+
+/-- directory: file name ↦ contents (`none` = no such file) -/
+abbrev Dir := Str → Option Bytes
+
+def Dir.set (m : Dir) (k : Str) (v : Option Bytes) : Dir := fun x => if x = k then v else m x
+
+/-- the journal guarding archive `a`: `self._warc_filename + '-wpullinc'` -/
+def journalOf (a : Str) : Str := a ++ journalSuffix
+
+/-- which file a primitive of an append to archive `a` acts on -/
+def fileOf (a : Str) : Prim → Str
+  | .jopen | .jwrite _ | .jclose | .junlink | .unlink => journalOf a
+  | _ => a
+
+abbrev NTrace := List (Str × Prim × Tag)
+
+structure StepRes where
+  dir : Dir
+  st : Status
+  tr : NTrace
+
+/-- `write_record` aimed at archive `a` inside the directory -/
+def appendTo (m : Dir) (a : Str) (s : Sched) : StepRes :=
+  let r := writeRecord ⟨m a, m (journalOf a)⟩ s
+  ⟨(m.set a r.fs.archive).set (journalOf a) r.fs.journal, r.status,
+   r.tr.map (fun e => (fileOf a e.1, e.1, e.2))⟩
+
+/-- `wpull.util.truncate_file(a)`: open for writing (creates / empties), close -/
+def truncateFile (m : Dir) (a : Str) (o1 o2 : Out) : StepRes :=
+  match o1 with
+  | .fail k => ⟨m, .raised, [(a, .topen, .fail k)]⟩
+  | .die k => ⟨m, .died, [(a, .topen, .die k)]⟩
+  | .ok =>
+    match o2 with
+    | .ok => ⟨m.set a (some []), .done, [(a, .topen, .ok), (a, .tclose, .ok)]⟩
+    | .fail k => ⟨m.set a (some []), .raised, [(a, .topen, .ok), (a, .tclose, .fail k)]⟩
+    | .die k => ⟨m.set a (some []), .died, [(a, .topen, .ok), (a, .tclose, .die k)]⟩
+
+inductive StepKind
+  | startTrunc   -- `_start_new_warc_file` of a NON-appending run: truncate, then the warcinfo record
+  | startKeep    -- `_start_new_warc_file` with `appending`: the warcinfo record goes behind what is there
+  | append       -- any later `write_record`
+  deriving DecidableEq, Repr
+
+structure Step where
+  kind : StepKind
+  target : Str
+  topen : Out := .ok
+  tclose : Out := .ok
+  sched : Sched := {}
+
+def runStep (m : Dir) (st : Step) : StepRes :=
+  match st.kind with
+  | .startTrunc =>
+    let t := truncateFile m st.target st.topen st.tclose
+    match t.st with
+    | .done => let r := appendTo t.dir st.target st.sched; ⟨r.dir, r.st, t.tr ++ r.tr⟩
+    | _ => t
+  | _ => appendTo m st.target st.sched
+
+/-- the steps of a life in order; an OSError or a kill ends it -/
+def runLife (m : Dir) : List Step → StepRes
+  | [] => ⟨m, .done, []⟩
+  | st :: rest =>
+    let r := runStep m st
+    match r.st with
+    | .done => let q := runLife r.dir rest; ⟨q.dir, q.st, r.tr ++ q.tr⟩
+    | _ => r
+
+/-- A recorder life: `__init__` first runs `_check_journals_and_maybe_raise` over the names present in
+the directory; a left-over journal of ANY archive of the prefix ends the life before anything is touched. -/
+def startLife (namePrefix : Str) (names : List Str) (m : Dir) (steps : List Step) : StepRes :=
+  if startupRefuses namePrefix (names.filter fun n => (m n).isSome) then ⟨m, .raised, []⟩
+  else runLife m steps
+
+/-- `Dir` from a listing (first entry wins) -/
+def Dir.ofList : List (Str × Option Bytes) → Dir
+  | [] => fun _ => none
+  | (k, v) :: r => fun x => if x = k then v else Dir.ofList r x
 
 end Wpull.WarcWrite
